@@ -48,7 +48,7 @@ pub fn generate_group(run_seed: u64, g: usize) -> GroupSpec {
             m.cfg.queue_capacity = if r.pct(50) { format!("{}", floor + r.below(3 * floor)) } else { "2G".into() };
             m.cfg.bufwriter_cap = *r.pick(&[1u64, 64, 4096, 4 << 20]);
             m.faults = if r.pct(30) {
-                BenignFaults { short_write_pct: 30, eintr_write_pct: 10, short_read_pct: 30, eintr_read_pct: 0, seed: r.next() }
+                BenignFaults { short_write_pct: 30, eintr_write_pct: 10, short_read_pct: 30, eintr_read_pct: 10, seed: r.next() }
             } else {
                 BenignFaults::default()
             };
